@@ -102,7 +102,7 @@ def values(rng, shape, dtype='f', nan=0.0, lo=1, hi=4000):
 
 
 def spec(rng, ndim=None, dims=None, sizes=None, kinds=None, orders=None, dtype='f', nan=0.0,
-         minsize=1, maxsize=4, maxdim=4, mindim=0, pool=None, distinct_sizes=False, narrow=False):
+         minsize=1, maxsize=4, maxdim=4, mindim=0, pool=None, distinct_sizes=False, narrow=True):
     pool = pool or DIMS
     if dims is None:
         if ndim is None:
